@@ -275,8 +275,10 @@ def main() -> int:
     }
     if hasattr(module, 'extra_evidence'):
         evidence['coverage'].update(module.extra_evidence())
-    os.makedirs(os.path.join(VERIF_DIR, 'evidence'), exist_ok=True)
-    with open(os.path.join(VERIF_DIR, 'evidence', prop + '.json'), 'w', encoding='utf8') as f:
+    # Evidence describes runs against /repo itself; sensitivity runs against a scratch worktree (VERIF_REPO) write elsewhere.
+    ev_dir = os.path.join(VERIF_DIR, 'evidence') if os.path.realpath(REPO_DIR) == '/repo' else os.path.join(VERIF_DIR, '.scratch', 'evidence_alt')
+    os.makedirs(ev_dir, exist_ok=True)
+    with open(os.path.join(ev_dir, prop + '.json'), 'w', encoding='utf8') as f:
         json.dump(evidence, f, indent=1, ensure_ascii=True, sort_keys=True)
         f.write('\n')
 
